@@ -20,11 +20,15 @@ inductive Mode where
   | wait | cancel | start
   deriving DecidableEq, Repr, Inhabited
 
-/-- the data of a put event as far as the scripts are concerned -/
+/-- the data of a put event: a mapping.  `empty`: it is the EMPTY mapping (legal for a coroutine without
+    arguments, `f_args=()`; an empty mapping is false as a Python value, but it is an item like any other);
+    `id`, `dur`, `fail`: what the script of the run does with it (for an empty mapping the harness supplies
+    them out of band) -/
 structure Item where
   id : Nat
   dur : Nat
   fail : Bool
+  empty : Bool
   deriving DecidableEq, Repr, Inhabited
 
 /-- an accepted put: `seq` = number of puts accepted before it -/
